@@ -2,6 +2,7 @@ import JT.Basic.Bytes
 import JT.Model.Frame
 import JT.Model.Rtp
 import JT.Model.Miss
+import JT.Model.Parse
 /-!
 Line-protocol driver: one operation per input line, one result line per operation.
 `<idx> <op> <args…>` ↦ `<idx> <result>`.
@@ -43,6 +44,32 @@ def report9212 (name : Bytes) (ftype : Nat) (l : List Miss.Seg) : Bytes :=
   [UInt8.ofNat name.length] ++ name ++ [UInt8.ofNat ftype, (if l.isEmpty then 0 else 1), UInt8.ofNat l.length]
     ++ l.flatMap (fun s => toBE 4 s.off ++ toBE 4 s.len)
 
+def showPMsg (m : Parse.PMsg) : String :=
+  s!"{m.h.id}.{m.h.serial}.{m.h.sum}.{m.h.no}.{if m.complete then 1 else 0}.{hexOrDash m.body}.{hexOrDash m.raw}"
+
+def parseSession (s : String) : Option (List (Nat × Bytes)) :=
+  (s.splitOn ",").mapM fun p =>
+    match p.splitOn ":" with
+    | [a, b] => do pure (← a.toNat?, ← ofHex b)
+    | _ => none
+
+def insertSorted (x : String) : List String → List String
+  | [] => [x]
+  | y :: r => if x ≤ y then x :: y :: r else y :: insertSorted x r
+
+def sortStrs (l : List String) : List String := l.foldr insertSorted []
+
+/-- run a parser session like the harness does: stop after the first error -/
+def runSession : Nat → Parse.PState → List (Nat × Bytes) → List String → String
+  | _, st, [], acc => s!"{"#".intercalate acc.reverse} h={st.hist.length} t={st.recs.length}"
+  | now, st, (dt, data) :: r, acc =>
+    let now' := now + dt
+    let (st', msgs, reqs, err, pn) := Parse.parse now' st data
+    if pn then "panic" else
+    let s := "[" ++ ";".intercalate (msgs.map showPMsg) ++ "|" ++ ";".intercalate (sortStrs (reqs.map showPMsg)) ++ "]"
+    if err then s!"{"#".intercalate ((s ++ "!E") :: acc).reverse} h={st'.hist.length} t={st'.recs.length}"
+    else runSession now' st' r (s :: acc)
+
 def runOp (op : String) (args : List String) : String :=
   match op, args with
   | "dec", [f] =>
@@ -53,6 +80,10 @@ def runOp (op : String) (args : List String) : String :=
       | .ok m => showMsg m
       | .err => "err"
       | .panic => "panic"
+  | "psess", [sess] =>
+    match parseSession sess with
+    | some cs => runSession 0 Parse.PState.empty cs []
+    | none => "bad-op"
   | "miss", [f, c, segs] =>
     match f.toNat?, c.toNat?, parseSegs segs with
     | some f, some c, some l => let g := Miss.missSegments f c l; s!"n={g.length} {showSegs g}"
